@@ -122,6 +122,13 @@ def impl(case):
     for tag, sv in (('ff_300', 300), ('ff_neg_u8', -1), ('ff_half', 2.5), ('ff_big', 2**40)):
         arr = narrow.astype(np.uint8) if tag == 'ff_neg_u8' else narrow
         out[tag] = _guard(lambda sv=sv, arr=arr: int(mh.utils.find_first(sv, arr)))
+    def lumped_short():
+        # macrostate data with fewer frames than the microstate data: rejected alike in every configuration
+        tr = data()
+        macro = [np.array([1 + int(v) % 2 for v in tr[0][:max(1, len(tr[0]) // 2)]])] + [np.array([1 + int(v) % 2 for v in t]) for t in tr[1:]]
+        lt = mh.LumpedStateTraj(macro, tr)
+        return {'assign': [int(v) for v in lt.state_assignment]}
+    out['lumped_short'] = _guard(lumped_short)
     if not case['big']:
         present = sorted({v for t in case['trajs'] for v in t})
         f = {v: 100 + (i * 2) // max(1, len(present)) for i, v in enumerate(present)}
